@@ -45,6 +45,8 @@ def instances(tier, seed):
             for n0 in range(0, 3):
                 out.append({"name": "names-K%d-c%d-n%d" % (K, cols, n0), "fn": "wrap", "timeout": T, "cost": 3,
                             "params": {"K": K, "cols": cols, "L": 4 if tier == "quick" else 5, "n0": n0, "layout": "names", "alpha": "a "}})
+    out += [dict(i, name=i["name"] + "-warm", params=dict(i["params"], warm=True)) for i in out
+            if i["params"]["K"] in (2, 3) and (tier != "quick" or i["params"]["cols"] == 3)]
     # longer plain strings over {a, space}: over-long words that are not the first word, followed by short ones
     for n0 in ((7, 8) if tier == "quick" else (7, 8, 9, 10)):
         for cols in ((3,) if tier == "quick" else (2, 3, 4)):
@@ -79,7 +81,13 @@ def _build(t0, t1, t2):
     K = P["K"]
     if K == 0:
         return t0      # plain str input
-    return FmtStr(*[Chunk(t, a) for t, a in zip([t0, t1, t2][:K], _atts())])
+    f = FmtStr(*[Chunk(t, a) for t, a in zip([t0, t1, t2][:K], _atts())])
+    if P.get("warm"):
+        # history: the value was displayed, measured and used by the str-like helpers before it is wrapped
+        H.warm(f)
+        f.shared_atts
+        f.ljust(0)
+    return f
 
 
 def _atts():
